@@ -203,6 +203,10 @@ def run(ctx: Ctx, env):
                     ctx.check(problem is None, "R3.function-meaning", f"{hn}|{f}/{n}", f"{f}: built as `{T.show(t)}`: {problem}",
                               p.entry.get("where", ""), witness.call_example(f) + ("" if O.ODATA_FUNCTION_RETURN.get(f) == "Boolean" else " eq 1"))
     ctx.floor("function handler paths", n_fn, 20)
+    dd = H.dispatch(DJ)
+    ctx.check(H.dispatch_passes_positional(DJ) is not False, "R3.call-arguments-reach-the-handler", "visit_Call",
+              "no path of visit_Call hands the call's positional arguments (node.args) to the djangofunc_* handler: the handlers above are "
+              "never given the operands they translate", dd.where if dd else dm.rel, "length(name) eq 4")
 
     # ---- (7) substring family type checks ------------------------------------------------------------------------------
     for f, lk in SUBSTR_LOOKUP.items():
